@@ -71,6 +71,12 @@ def build_cases(tier, seed):
                 cs.append(("xover", model, ("two", k), N, {}))
         if p["props"]["X"] == 0.5 or tier != "quick":
             cs.append(("sbt_mcmc", "slate_BradleyTerry_MCMC", ("two", k), 0, {}))
+    # the same generator object asked twice: the second profile must follow the same law, independently of the first
+    for k, p in enumerate(two):
+        if k % 4 == 0:
+            for model in LAW_MODELS + ("AlternatingCrossover", "CambridgeSampler"):
+                ex = {"ballot_length": 2} if model == "short_name_PlackettLuce" else ({"num_votes": 2} if model == "name_Cumulative" else {})
+                cs.append(("reuse", model, ("two", k), 1, ex))
     for k, p in enumerate(one):
         for model in ("name_PlackettLuce", "name_BradleyTerry", "name_Cumulative", "slate_PlackettLuce", "slate_BradleyTerry"):
             for N in (1, 2, 3):
@@ -214,6 +220,47 @@ def run_law(i, model, p, N, ex, cnt, out):
 
 
 # ------------------------------------------------------------------------------------
+def run_reuse(i, model, p, ex, cnt, out):
+    extra = dict(ex)
+    if model == "CambridgeSampler":
+        extra["path"] = gens.cambridge_table_path()
+
+    def one():
+        g = gens.build_generator(model, p, **extra)
+        return gens.law_key_from_profile(gens.generate(model, g, 1, False))
+
+    def two():
+        g = gens.build_generator(model, p, **extra)
+        a = gens.law_key_from_profile(gens.generate(model, g, 1, False))
+        b = gens.law_key_from_profile(gens.generate(model, g, 1, False))
+        return (a, b)
+
+    try:
+        l1, n1, e1 = gens.observed_law(one, max_paths=path_budget())
+        if n1 * n1 > path_budget() * 4:
+            cnt["skipped_by_path_estimate"] += 1
+            return
+        l2, n2, e2 = gens.observed_law(two, max_paths=path_budget() * 4)
+    except chooser.PathLimit:
+        cnt["skipped_too_many_paths"] += 1
+        return
+    cnt["executions"] += n1 + n2
+    if e1 or e2:
+        cnt["skipped_exception"] += 1
+        return
+    exp = {(a, b): pa * pb for a, pa in l1.items() for b, pb in l1.items()}
+    w = gens.compare_laws(l2, exp, TOL)
+    if w:
+        out["viols"].append(_viol("reuse", model, i,
+                                  f"two profiles drawn from one generator object: P({fmt_key(w[1])}) = {w[2]:.12g}, but two independent draws from "
+                                  f"the one-profile law give {w[3]:.12g}"))
+        return
+    cnt["laws_checked"] += 1
+    cnt["traces"] += 1
+    if len(l1) > 1:
+        cnt["nontrivial"] += 1
+
+
 def xover_single_laws(model, p, bloc):
     """(law of a bloc-type ballot, law of a cross-type ballot) for AC / Cambridge."""
     blocs = list(p["props"].keys())
@@ -615,6 +662,8 @@ def run_case(i, tier):
         run_law(i, model, p, N, ex, cnt, out)
     elif what == "xover":
         run_xover(i, model, p, N, ex, cnt, out)
+    elif what == "reuse":
+        run_reuse(i, model, p, ex, cnt, out)
     elif what == "bt_mcmc":
         run_bt_mcmc(i, model, p, cnt, out)
     elif what == "sbt_mcmc":
